@@ -42,15 +42,23 @@ RULE = (
     "as directories, so that key-tuple order and relpath order differ. 30% of the transfers run with verify=True. "
     "Rot stream (every third plain history): after the normal steps an object of a store is rewritten on disk (an "
     "external event, same inode and mode), followed by 1-3 steps, mostly verifying transfers of the rotten id and of "
-    "directories listing it into same-algorithm partners: only objects on a rewritten inode may then be misnamed."
+    "directories listing it into same-algorithm partners: only objects on a rewritten inode may then be misnamed. "
+    "In shared-State histories a file of a kept workspace is now and then given other bytes of the same length - "
+    "replaced by rename with identical size and st_mtime_ns (new inode), or rewritten in place inside the same second - "
+    "and the workspace is staged / index-saved again right away, preferably into the emptiest store. "
+    "Large-content stream, ORACLE ONLY (2 fixed histories per run): files of 2^20+k bytes with a binary head and CRLF "
+    "text in a later hashing chunk, and the mirror image, staged into md5-dos2unix / md5 stores and migrated in both "
+    "directions, then transferred with verify; no Coq evaluation for these (a MiB through the Gallina MD5 is out of "
+    "reach), the hashlib oracle judges every store after every step."
 )
 ASSUMPTIONS = [
     "WfOp: ids handed to odb.add by callers outside dvc-data are truthful; transfer is used between stores of one "
     "hash algorithm; the `name` given to build()/index.md5() is the store's hash_name; directory staging / directory "
     "index entries are used with md5 or md5-dos2unix stores only (sha256 directory staging goes through the legacy "
     "external-output path, DESIGN section 6 C01 'not covered')",
-    "contents shorter than one hashing chunk (2^20 bytes): the dos2unix heuristic sees the first 512 bytes of the whole "
-    "content (chunking is C14); umask 022; no upload faults, no remote index (C04/C11); verify only as the transfer flag",
+    "model: contents shorter than one hashing chunk (2^20 bytes), the dos2unix heuristic sees the first 512 bytes of the "
+    "whole content (chunking is C14); the oracle's reference md5-dos2unix digest is the legacy per-1-MiB-chunk definition, "
+    "computed independently with hashlib, and is applied to the large-content stream without the model; umask 022; no upload faults, no remote index (C04/C11); verify only as the transfer flag",
     "environment observed and handed to the model as explicit arguments: order of the workspace walk, order of the "
     "index iteration, order in which migrate.prepare returns the re-hashed objects, whether the file system hard-links",
     "the model is cache-free; in the shared-State histories the real State must make no observable difference (its "
